@@ -17,17 +17,32 @@ def run(ctx):
         inconclusive = "incomplete: %d of %d work items" % (agg["evaluations"], work)
     elif leaps != 65536 or agg["cells"].get("state-setup-differs", 0) > 0:
         inconclusive = "leap values covered %d of 65536; FSM set-up failures %d" % (leaps, agg["cells"].get("state-setup-differs", 0))
+    # The poller's side: what chronyd said is what the writer classifies. The real poller over a real socket,
+    # every reply different from its neighbours in every field that matters (leap, reference time, interval -
+    # also 0 right after a non-zero one -, offset, delay, dispersion); the message handed to the writer must
+    # carry the reply of its own poll unchanged.
+    from . import c13real
+    real = c13real.run_real(ctx)
+    viol += [v for v in real["violations"] if v["sig"] == "report-altered-by-the-poller"]
+    compared = real.get("kinds", {}).get("reports-compared-field-by-field", 0)
+    ctx.log("real poller: %s scripts, %s reports compared field by field with chronyd's reply" % (real.get("evaluations"), compared))
+    if real.get("inconclusive") and not inconclusive:
+        inconclusive = real["inconclusive"]
+    elif compared < 100 and not inconclusive:
+        inconclusive = "the real-poller layer compared only %d reports" % compared
     coverage = {
         "evaluations": agg["evaluations"],
         "distinct_nontrivial": work,
         "rule": "each evaluation: a daemon with a measurement on record is brought to one FSM state (Unknown / Synchronized / FreeRunning) by real messages, then one report (leap status, reference-time age under a virtual SystemTime, update interval) is processed by the real pipeline and the published status read from the sink; "
                 "enumerated: all 65536 leap-status values (fresh), every (leap in {0,1,2,3,4,7,255,65535}) x (9 intervals) x (ages -1 s, -1 ns, 0, 1 ns, floor-threshold -1/0/+1 ns, exact-threshold -1/0/+1 ns, +1 s, 1 year) x (3 FSM states); plus random reports; plus the bit-identical report processed a second time after virtual time has moved on (fresh then stale, fresh then still fresh); "
-                "oracle: the statement's table in exact integer arithmetic on the decoded interval; in the sliver floor(8*interval) s < age <= 8*interval either answer is accepted and counted; distinct_nontrivial = enumerated + random work items (all distinct by construction)",
+                "plus the real poller loop over a real socket against a scripted chronyd whose replies differ per poll in every classified field: the report handed to the writer equals the reply of its own poll; oracle: the statement's table in exact integer arithmetic on the decoded interval; in the sliver floor(8*interval) s < age <= 8*interval either answer is accepted and counted; distinct_nontrivial = enumerated + random work items (all distinct by construction)",
         "samples": samples[:3],
         "exhaustive": True,
         "exhaustive_over": "leap status (all 65536 values)",
         "cells": agg["cells"],
         "sliver_cases_accepted": agg["slivers"],
+        "real_poller_reports_compared_with_the_wire": compared,
+        "real_poller_scripts": real.get("evaluations"),
     }
     finish(ctx, coverage, viol, inconclusive, assumptions=["ages are exact because SystemTime::now() of the writer thread reads the interposed CLOCK_REALTIME"])
 
